@@ -61,6 +61,8 @@ class Sim:
         self.ephemeral = 40000
         self.next_tag: Any = None
         self.current_owner: Any = None
+        self.tick_ns = 0
+        self.clock_reads = 0
         self.harness_fault: Optional[str] = None
         self.iteration_hooks: List[Callable[[], None]] = []
         self.wall_watchers: List[Callable[[], None]] = []
@@ -697,8 +699,9 @@ class SimNet:
 class SimContext:
     """Installs all seams for one run and removes them afterwards."""
 
-    def __init__(self, sched: int, epoch0: float, tz: Optional[str]):
+    def __init__(self, sched: int, epoch0: float, tz: Optional[str], tick_ns: int = 0):
         self.sim = Sim(sched, epoch0, tz)
+        self.sim.tick_ns = int(tick_ns)         # the wall clock advances this much on every read (0 = frozen between events)
         self.loop: Optional[SimLoop] = None
         self._travel = None
         self._old_tz = None
@@ -727,6 +730,17 @@ class SimContext:
         sim.sync_wall()
         if abs(_real_time.time() - sim.wall()) > 1e-6:
             raise HarnessError("wall-clock seam inactive")
+        if sim.tick_ns:
+            # a clock that moves while synchronous code runs: every read returns a slightly later instant, so code
+            # that reads the clock twice can see two different days
+            trav = sim.traveller
+
+            def ticking_time_ns():
+                sim.clock_reads += 1
+                sim.skew_ns += sim.tick_ns
+                trav._destination_timestamp_ns = sim.wall_ns()
+                return trav._destination_timestamp_ns
+            trav.time_ns = ticking_time_ns
         # loop (created before the socket shim: its self-pipe is a real socketpair)
         self.loop = SimLoop(sim)
         asyncio.set_event_loop(None)
